@@ -72,8 +72,13 @@ class WalkOracles(Oracles):
         if tr == "Mer" and name == "get":
             k = recv(it, args[0])
             i = args[1]
-            idx = i.val if isinstance(i, Int) and i.is_conc() else "?"
-            return Int(8, False, bits=[TOP] * 8, tags=frozenset({"base"}) | frozenset({"b:%s:%s:%s" % (kid(k)[0] if kid(k) else "?", "rc" if kid(k) and kid(k)[1] else "fw", idx)}))
+            idx = i.val if isinstance(i, Int) and i.is_conc() else None
+            if kid(k) and idx is not None and 0 <= idx < self.K:
+                return Int(8, False, bits=[TOP] * 8, tags=frozenset({"base", norm_base(kid(k)[0], bool(kid(k)[1]), idx, self.K)}))
+            return Int(8, False, bits=[TOP] * 8, tags=frozenset({"base"}))
+        if p == "complement" and len(args) == 1 and isinstance(args[0], Int) and base_tag(args[0]):
+            nd, fp, c = base_tag(args[0])[2:].rsplit(":", 2)
+            return Int(8, False, bits=[TOP] * 8, tags=frozenset({"base", "b:%s:%s:%d" % (nd, fp, 1 - int(c))}))
         if tr == "Mer" and name == "rc":
             k = recv(it, args[0])
             if kid(k):
@@ -262,15 +267,17 @@ def extender_table(F, rep, rule, graph_route):
                     for i, e in enumerate(elems):
                         kk, dd = e.fields
                         ident = h.id_of(kk) if graph_route else (kid(kk)[0] if kid(kk) else None)
-                        want_d = flip(a["dir%d" % i]) if graph_route else a["dir%d" % i]
-                        if ident != "p%d" % i or dir_of(dd) != want_d:
-                            problems.append(("path entry %d is (%s, %s); the walk requires (%s, %s)" % (
-                                i, ident, dir_name(dir_of(dd)) if dir_of(dd) in (0, 1) else dd, "p%d" % i, dir_name(want_d)), row))
+                        # (which direction an entry records, and in which orientation the terminal extensions are handed back, is private
+                        # to the growth function and the node builder: the builder tables decide both on the composed pair)
+                        if ident != "p%d" % i:
+                            problems.append(("path entry %d is %s; the walk accepted %s there" % (i, ident, "p%d" % i), row))
                             break
-                # terminal extensions
+                # terminal extensions: those of the terminating step, as reported or with the two strands swapped (complemented)
                 ev = ex.fields[0] if isinstance(ex, Adt) and ex.name == EXTS else None
-                want_bits = [var("final", i) for i in range(4)] + [ZERO] * 4
-                if not (isinstance(ev, Int) and list(ev.getbits()) == want_bits):
+                fb = [var("final", i) for i in range(4)]
+                ok_bits = ([fb + [ZERO] * 4, [ZERO] * 4 + fb, fb[::-1] + [ZERO] * 4, [ZERO] * 4 + fb[::-1]])
+                got_bits = list(ev.getbits()) if isinstance(ev, Int) else None
+                if got_bits is not None and all(b is not TOP for b in got_bits) and got_bits not in ok_bits:
                     problems.append(("the returned terminal extensions are not those reported by the terminating step", row))
     if problems:
         msg, row = problems[0]
@@ -361,32 +368,51 @@ def find_callers(F, callee_path, exclude=()):
     return attributed_callers(F, callee_path, exclude)
 
 
-class HashBuilderOracles(WalkOracles):
-    def __init__(self, script, K, extender_path):
+class ScriptedWalks:
+    """The builder tables run the node builder TOGETHER WITH the growth function it calls (how the two talk to each other — what a path
+    entry's direction means, who complements the terminal extensions — is private to them); only the step function is scripted.  A walk
+    starts when the step function is asked about the seed; walk `l` / `r` (by the direction asked) accepts n_l / n_r further elements
+    `l0, l1` / `r0, r1`, each with a scripted orientation, and then ends with the terminal extensions `lext` / `rext`."""
+
+    def walk_step(self, ident, d):
+        """-> ('unique', i, walk) / ('terminal', walk)"""
+        if ident == "seed":
+            self.walk = "l" if d == LEFT else "r"
+            self.walk_i = 0
+            self.ext_calls.append(((("seed", False) if not self.graph_route else "seed"), d))
+        w = getattr(self, "walk", None)
+        if w is None:
+            raise Undecided("the step function is consulted for %r before any walk started from the seed" % (ident,))
+        n = self.choose("n_" + w, (0, 1, 2))
+        if self.walk_i < n:
+            i = self.walk_i
+            self.walk_i += 1
+            return ("unique", i, w)
+        return ("terminal", w)
+
+
+class HashBuilderOracles(WalkOracles, ScriptedWalks):
+    graph_route = False
+
+    def __init__(self, script, K, step_path):
         WalkOracles.__init__(self, script, K)
-        self.extender_path = extender_path
+        self.step_path = step_path
         self.ext_calls = []
 
     def on_call(self, it, fn, args, dest_ty, term, caller):
         p = fn.get("rpath") or fn.get("path", "")
         name = fn.get("path", "").split("::")[-1]
-        if p == self.extender_path or fn.get("path") == self.extender_path:
+        if (p == self.step_path or fn.get("path") == self.step_path) and len(args) == 3:
             k = recv(it, args[1])
             d = dir_of(args[2])
-            self.ext_calls.append((kid(k), d))
-            if d is None:
-                raise Undecided("extender called with an undetermined direction")
-            w = "l" if d == LEFT else "r"
-            n = self.choose("n_" + w, (0, 1, 2))
-            entries = []
-            for i in range(n):
+            if d is None or kid(k) is None:
+                raise Undecided("step function consulted with an undetermined k-mer / direction")
+            r = self.walk_step(kid(k)[0], d)
+            if r[0] == "unique":
+                _, i, w = r
                 ed = self.choose("d_%s%d" % (w, i), (LEFT, RIGHT))
-                entries.append(Tup([kmer_v("%s%d" % (w, i)), dir_v(ed)]))
-            pr = args[3]
-            if not isinstance(pr, Ref):
-                raise Unsupported("path buffer is not passed by reference")
-            it.write(pr.cell, pr.path, VecV(entries))
-            return exts_sym(w + "ext")
+                return Adt("compression::ExtMode", 0, [kmer_v("%s%d" % (w, i)), dir_v(ed), exts_sym("u%s%d" % (w, i))])
+            return Adt("compression::ExtMode", 1, [exts_sym(r[1] + "ext")])
         if name == "get_key" and "BoomHashMap" in fn.get("path", ""):
             return some(Ref(Cell(kmer_v("seed"), "seed")))
         return self.common(it, fn, args, dest_ty, term, caller)
@@ -397,6 +423,12 @@ def base_tag(v):
         if t.startswith("b:"):
             return t
     return None
+
+
+def norm_base(kmer, rc, idx, K):
+    """a base of a k-mer in normal form (k-mer, position in the stored k-mer, complemented?): position i of the reverse complement is the
+    complement of stored position K-1-i — whether the code reads it from rc() or computes it by hand"""
+    return "b:%s:%d:%d" % (kmer, (K - 1 - idx) if rc else idx, 1 if rc else 0)
 
 
 def hash_builder_table(F, rep, rule):
@@ -417,7 +449,7 @@ def hash_builder_table(F, rep, rule):
     rows = 0
     for K in (3, 5):
         def mk(script, K=K):
-            return HashBuilderOracles(script, K, ext["path"])
+            return HashBuilderOracles(script, K, step["path"])
 
         def run(h):
             it = Interp(F, False, h)
@@ -448,16 +480,19 @@ def hash_builder_table(F, rep, rule):
             want_seq = []
             for i in reversed(range(nl)):
                 d = a["d_l%d" % i]
-                want_seq.append("b:l%d:%s:0" % (i, "fw" if d == LEFT else "rc"))
+                want_seq.append(norm_base("l%d" % i, d != LEFT, 0, K))
             for i in range(K):
-                want_seq.append("b:seed:fw:%d" % i)
+                want_seq.append(norm_base("seed", False, i, K))
             for i in range(nr):
                 d = a["d_r%d" % i]
-                want_seq.append("b:r%d:%s:%d" % (i, "fw" if d == RIGHT else "rc", K - 1))
+                want_seq.append(norm_base("r%d" % i, d != RIGHT, K - 1, K))
             got_seq = [base_tag(e) for e in dq.elems] if isinstance(dq, DequeV) else None
+            if got_seq is None or any(x is None for x in got_seq):
+                rep.inconclusive(rule, key0 + "/row%d" % rows, "node builder: a base of the assembled sequence could not be traced to a k-mer position (%s) (row %s)" % (got_seq, row))
+                continue
             if got_seq != want_seq:
                 problems.append(("the assembled node sequence is %s; one base per placed k-mer in walk order requires %s "
-                                 "(b:<k-mer>:<fw|rc>:<base index>)" % (got_seq, want_seq), row))
+                                 "(b:<k-mer>:<stored position>:<complemented>)" % (got_seq, want_seq), row))
                 continue
             if not (isinstance(r, Tup) and len(r.fields) == 2):
                 problems.append(("result shape %r" % (r,), row))
@@ -489,10 +524,12 @@ def hash_builder_table(F, rep, rule):
                   "terminal extensions are complemented exactly when the last entry is reversed" % rows, sample={"walk_pairs": rows})
 
 
-class GraphBuilderOracles(WalkOracles):
-    def __init__(self, script, extender_path):
+class GraphBuilderOracles(WalkOracles, ScriptedWalks):
+    graph_route = True
+
+    def __init__(self, script, step_path):
         WalkOracles.__init__(self, script)
-        self.extender_path = extender_path
+        self.step_path = step_path
         self.ext_calls = []
         self.seq_path = None
 
@@ -500,18 +537,19 @@ class GraphBuilderOracles(WalkOracles):
         p = fn.get("rpath") or fn.get("path", "")
         path = fn.get("path", "")
         name = path.split("::")[-1]
-        if p == self.extender_path or path == self.extender_path:
+        if (p == self.step_path or path == self.step_path) and len(args) == 3:
             d = dir_of(args[2])
-            self.ext_calls.append((self.id_of(args[1]), d))
-            if d is None:
-                raise Undecided("extender called with an undetermined direction")
-            w = "l" if d == LEFT else "r"
-            n = self.choose("n_" + w, (0, 1, 2))
-            entries = []
-            for i in range(n):
-                ed = self.choose("a_%s%d" % (w, i), (LEFT, RIGHT))
-                entries.append(Tup([Int(64, False, bits=[TOP] * 64, tags=frozenset({"id:%s%d" % (w, i)})), dir_v(ed)]))
-            return Tup([VecV(entries), exts_sym(w + "ext")])
+            ident = self.id_of(args[1])
+            if d is None or ident is None:
+                raise Undecided("step function consulted with an undetermined node / direction")
+            r = self.walk_step(ident, d)
+            if r[0] == "unique":
+                _, i, w = r
+                # a_<w><i>: the side through which the accepted node is ENTERED; the step function reports the side the walk goes on from
+                ea = self.choose("a_%s%d" % (w, i), (LEFT, RIGHT))
+                return Adt("compression::ExtModeNode", 0, [Int(64, False, bits=[TOP] * 64, tags=frozenset({"id:%s%d" % (w, i)})), dir_v(flip(ea)),
+                                                          exts_sym("u%s%d" % (w, i))])
+            return Adt("compression::ExtModeNode", 1, [exts_sym(r[1] + "ext")])
         if path.startswith("graph::Node::<") and name == "data":
             n = recv(it, args[0])
             nid = self.id_of(n.fields[0]) if isinstance(n, Adt) else None
@@ -523,6 +561,13 @@ class GraphBuilderOracles(WalkOracles):
             if isinstance(itv, IterV) and itv.kind == "deque":
                 dq = it.read(itv.a[0].cell, itv.a[0].path)
                 self.seq_path = [(self.id_of(e.fields[0]), dir_of(e.fields[1])) for e in dq.elems]
+            elif isinstance(itv, IterV):
+                from .models import drain_iter
+                items = drain_iter(it, itv, term, caller)
+                if items is not None:
+                    vals = [deref_val(it, e) for e in items]
+                    if all(isinstance(e, Tup) and len(e.fields) == 2 for e in vals):
+                        self.seq_path = [(self.id_of(e.fields[0]), dir_of(e.fields[1])) for e in vals]
             return Opaque("DnaString", {"path-seq"})
         return self.common(it, fn, args, dest_ty, term, caller)
 
@@ -544,7 +589,7 @@ def graph_builder_table(F, rep, rule):
     rows = 0
 
     def mk(script):
-        return GraphBuilderOracles(script, ext["path"])
+        return GraphBuilderOracles(script, step["path"])
 
     def run(h):
         it = Interp(F, False, h)
